@@ -56,6 +56,13 @@ SA(offsetof(struct ec_backend_op_stubs, init) == 0 && offsetof(struct ec_backend
    offsetof(struct ec_backend_op_stubs, fragments_needed) == 32 && offsetof(struct ec_backend_op_stubs, reconstruct) == 40 &&
    offsetof(struct ec_backend_op_stubs, element_size) == 48, "op stubs layout");
 
+/* guarded hook points used by harness/h_sched.cpp (only when the tree carries the hooks) */
+#if defined(LIBERASURECODE_VERIF) && defined(__has_include)
+# if __has_include("erasurecode_verif.h")
+SA(LIBEC_VP_LOOKUP_STEP == 1 && LIBEC_VP_LOCK_TRY == 13 && LIBEC_VP_BLOCKED == 14 && LIBEC_VP_UNLOCK == 15, "hook point ids");
+# endif
+#endif
+
 /* prototypes: a changed signature is a compile error here */
 static int (*const p_create)(const ec_backend_id_t, struct ec_args *) = liberasurecode_instance_create;
 static int (*const p_destroy)(int) = liberasurecode_instance_destroy;
